@@ -2990,8 +2990,10 @@ class RedunBackendDb(RedunBackend):
         """
         assert self.session
 
+        # A bare None would be rendered as SQL NULL, which equals nothing; bind it as a JSON value.
         conditions = [
-            and_(Tag.key == key, Tag.value == sa_cast(value, JSON)) for key, value in tags
+            and_(Tag.key == key, Tag.value == sa_cast(sa.literal(value, JSON), JSON))
+            for key, value in tags
         ]
         if keys:
             conditions.append(Tag.key.in_(keys))
